@@ -111,7 +111,7 @@ def dispatch (pt count : Nat) : Kind :=
 /-- `unmarshal`: one frame from the front of the datagram; returns the packet and the octets consumed -/
 def unmarshalOne (b : Bytes) : Out (Packet × Nat) := do
   let h ← Header.dec b
-  let processed := ((h.length + 1) % 65536) * 4       -- int(h.Length+1)*4, the +1 in uint16
+  let processed := (h.length + 1) * 4                   -- (int(h.Length)+1)*4
   if processed > b.length then .err
   else do
     let inPacket ← slice b 0 processed
